@@ -48,24 +48,73 @@ def accepts (cs : List Cfg.Flat) (p : List Seg) (obs : List (Key × String)) : B
   obs.all (fun o => want.contains o.1) && want.all (fun n => obs.any (·.1 = n)) &&
   obs.all fun o => cs.any fun c => c.any fun e => matchName p e.1 = some o.1 && e.2 = o.2
 
-/-- abstract typed-slot rule.  `fixed` is the type the property currently holds a value of (if any);
-    returns whether the implementation's answer to an access with type `t` is acceptable, and the
-    type held afterwards.  A property holding a value of type `t'` answers `invalid` to every other
-    type and is never reinterpreted. -/
-def typedAccept (fixed : Option Ty) (t : Ty) (ans : TAns) : Bool × Option Ty :=
-  match fixed with
-  | some t' =>
-    if t = t' then
+/-- abstract state of one property -/
+inductive PState where
+  | configured          -- a configuration value is waiting, no type yet
+  | untyped             -- absent (never set, or cleared)
+  | holds (t : Ty)      -- holds a value of type `t`
+  deriving DecidableEq, Repr
+
+/-- abstract view of an access: the type parameter of the call or of the handle used -/
+inductive Acc where
+  | openT (t : Ty)      -- `prop::<T>(key)`
+  | get (t : Ty)        -- through a live `Prop<T>` handle, fresh or stale
+  | orDefault (t : Ty)
+  | set (t : Ty)
+  | clear               -- `Prop::clear` / `RawProp::clear`
+  | drop
+  deriving DecidableEq, Repr
+
+def isErr : TAns → Bool
+  | .invalid | .other | .panic => true
+  | _ => false
+
+/-- **Abstract typed-slot rule.**  A property keeps the type it was first read or written with until
+    it is cleared.  While it holds a value of type `t`: every access with another type — a new
+    `prop::<T>` call or any use of a handle of another type, however old — is answered with an error
+    (`InvalidInput` for the call, a panic for the handle) and changes nothing; accesses with type
+    `t` succeed and return only values of type `t`.  Without a value, any type may be chosen; the
+    first successful write / default / conversion of the configured value fixes it.
+    Returns (answer acceptable?, state afterwards). -/
+def typedAccept (st : PState) (a : Acc) (ans : TAns) : Bool × PState :=
+  match a with
+  | .clear => (ans = .ok, .untyped)
+  | .drop => (ans = .ok, st)
+  | .openT t =>
+    match st with
+    | .holds t' => if t = t' then (ans = .ok, st) else (ans = .invalid, st)
+    | .untyped => (ans = .ok, st)
+    | .configured =>
       match ans with
-      | .val tv => (tv.ty = t, fixed)
-      | .ok => (true, fixed)
-      | _ => (false, fixed)
-    else (ans = .invalid, fixed)
-  | none =>
-    match ans with
-    | .invalid => (false, none)
-    | .val tv => (tv.ty = t, some t)
-    | .ok => (true, some t)
-    | _ => (true, none)
+      | .ok => (true, .holds t)        -- the configured value was converted to `t`
+      | .other => (true, st)           -- it does not convert: nothing changes
+      | _ => (false, st)
+  | .get t =>
+    match st with
+    | .holds t' =>
+      if t = t' then
+        match ans with
+        | .val tv => (tv.ty = t, st)
+        | _ => (false, st)
+      else (ans = .panic, st)
+    | _ => (ans = .none || ans = .panic, st)     -- no value: absent, or a `PRESENT` handle outlived a clear
+  | .orDefault t =>
+    match st with
+    | .holds t' =>
+      if t = t' then
+        match ans with
+        | .val tv => (tv.ty = t, st)
+        | _ => (false, st)
+      else (ans = .panic, st)
+    | .untyped =>
+      match ans with
+      | .val tv => (tv.ty = t, .holds t)
+      | .panic => (true, st)                     -- `PRESENT` handle after a clear
+      | _ => (false, st)
+    | .configured => (ans = .panic, st)
+  | .set t =>
+    match st with
+    | .holds t' => if t = t' then (ans = .ok, st) else (ans = .panic, st)
+    | _ => (ans = .ok, .holds t)
 
 end CfgSpec
